@@ -61,6 +61,13 @@ class GenInfo:
             nargs = cm.group(2).count("size_t") if cm else 0
             self.protocols.append((pm.group(1), nargs))
         self.has_ndjson = os.path.exists(os.path.join(gen_dir, "ndjson", "protocols.h"))
+        # batch write overloads of the generated binary writers: {protocol: [(method, element type)]}
+        self.batch_impls = {}
+        bh = os.path.join(gen_dir, "binary", "protocols.h")
+        if os.path.exists(bh):
+            bsrc = open(bh).read()
+            for cm in re.finditer(r"^class (\w+)Writer : public .*?\{(.*?)^\};", bsrc, re.M | re.S):
+                self.batch_impls[cm.group(1)] = re.findall(r"void (Write\w+Impl)\(std::vector<(.+)> const& values\) override;", cm.group(2))
 
 
 DRIVER_HEAD = r'''
@@ -82,6 +89,7 @@ struct Args {
   std::vector<size_t> bufs;
   bool skip_close = false;
   bool itemwise = false;
+  bool empty_batches = false;
 };
 
 template <class R, class W, class F>
@@ -118,6 +126,7 @@ int main(int argc, char** argv) {
     std::string s = argv[i];
     if (s == "--version" && i + 1 < argc) a.version = argv[++i];
     else if (s == "--skip-close") a.skip_close = true;
+    else if (s == "--empty-batches") a.empty_batches = true;
     else if (s == "--bufs" && i + 1 < argc) {
       std::stringstream ss(argv[++i]); std::string tok;
       while (std::getline(ss, tok, ',')) a.bufs.push_back(std::stoull(tok));
@@ -141,13 +150,25 @@ int main(int argc, char** argv) {
 
 def driver_source(info: GenInfo) -> str:
     ns = info.ns
-    parts = [DRIVER_HEAD % {"ndjson_include": '#include "ndjson/protocols.h"' if info.has_ndjson else ""}]
+    head = DRIVER_HEAD % {"ndjson_include": '#include "ndjson/protocols.h"' if info.has_ndjson else ""}
+    # writers that surround every batch write with empty batches (legal calls: `WriteX(std::vector<T>{})`)
+    eb = ["namespace {\n"]
+    for name, nargs in info.protocols:
+        eb.append("struct EB_%s : public %s::binary::%sWriter {\n  using %s::binary::%sWriter::%sWriter;\n" % (name, ns, name, ns, name, name))
+        for meth, ety in info.batch_impls.get(name, []):
+            eb.append("  void %s(std::vector<%s> const& values) override {\n    %s::binary::%sWriter::%s(std::vector<%s>{});\n    %s::binary::%sWriter::%s(values);\n    %s::binary::%sWriter::%s(std::vector<%s>{});\n  }\n"
+                      % (meth, ety, ns, name, meth, ety, ns, name, meth, ns, name, meth, ety))
+        eb.append("};\n")
+    eb.append("}  // namespace\n")
+    head = head.replace("static int run(Args const& a) {", "".join(eb) + "static int run(Args const& a) {")
+    parts = [head]
     for name, nargs in info.protocols:
         call = "r.CopyTo(w" + "".join(", b.at(%d)" % i for i in range(nargs)) + ");"
         lam = "[](auto& r, auto& w, std::vector<size_t> const& b) { (void)b; %s }" % call
         vers = "".join('      if (a.version == "%s") ver = %s::Version::%s;\n' % (v, ns, v) for v in info.versions)
         parts.append('  if (a.proto == "%s") {\n' % name)
         parts.append('    if (a.out == "bin") {\n      %s::Version ver = %s::Version::Current;\n%s' % (ns, ns, vers))
+        parts.append('      if (a.empty_batches) {\n        EB_%s w(out, ver);\n        if (a.in == "bin") return copy<%s::binary::%sReader>(a, in, out, w, %s);\n        return 64;\n      }\n' % (name, ns, name, lam))
         parts.append('      %s::binary::%sWriter w(out, ver);\n' % (ns, name))
         parts.append('      if (a.in == "bin") return copy<%s::binary::%sReader>(a, in, out, w, %s);\n' % (ns, name, lam))
         if info.has_ndjson:
